@@ -42,15 +42,17 @@ import (
 // with acquisition timeout.
 
 const (
-	c31OK      = iota // runs to completion
-	c31Unknown        // fails after acquiring the slot (engine: unknown interface; distributed: hosts cannot be resolved)
-	c31Invalid        // fails before acquiring the slot (arguments do not prepare)
-	c31Cancel         // its context is cancelled while it waits or runs
-	c31OKLong         // as c31OK with a keepalive of 2 s: waits up to 2 s for a slot (thorough)
+	c31OK         = iota // runs to completion
+	c31Unknown           // fails after acquiring the slot (engine: unknown interface; distributed: hosts cannot be resolved)
+	c31Invalid           // fails before acquiring the slot (arguments do not prepare)
+	c31Cancel            // its context is cancelled while it waits or runs
+	c31FailNoSeam        // fails right after acquiring the slot, before any I/O (engine: interface regexp that does not compile; distributed: as c31Unknown, the runner has no such path)
+	c31FailList          // fails while resolving its interfaces, after its first I/O (engine: database directory missing; distributed: as c31Unknown)
+	c31OKLong            // as c31OK with a keepalive of 2 s: waits up to 2 s for a slot (thorough)
 	c31NBehav
 )
 
-var c31BehavNames = []string{"ok", "fails-after-acquire", "invalid-args", "cancelled", "ok-keepalive-2s"}
+var c31BehavNames = []string{"ok", "fails-after-acquire", "invalid-args", "cancelled", "fails-before-io", "fails-listing", "ok-keepalive-2s"}
 
 const (
 	c31Tick = 600 * time.Millisecond
@@ -200,7 +202,7 @@ var errC31Resolve = errors.New("c31: hosts cannot be resolved")
 
 func (d *c31Dist) Resolve(_ context.Context, qh string) (hosts.Hosts, error) {
 	i := c31Index(qh)
-	if d.e.qs[i].behav == c31Unknown {
+	if b := d.e.qs[i].behav; b == c31Unknown || b == c31FailList || b == c31FailNoSeam {
 		d.e.park(i)
 		return nil, errC31Resolve
 	}
@@ -318,8 +320,11 @@ func c31Body(x *explore.Ctx, e *c31Env, dist bool, k int, behav []int) {
 			a.QueryHostsResolverType = "c31"
 		} else {
 			iface := "eth0"
-			if q.behav == c31Unknown {
+			switch q.behav {
+			case c31Unknown:
 				iface = "nosuch0"
+			case c31FailNoSeam:
+				iface = "/*eth/"
 			}
 			a = query.NewArgs("sip,dip", iface)
 		}
@@ -349,7 +354,11 @@ func c31Body(x *explore.Ctx, e *c31Env, dist bool, k int, behav []int) {
 			if dist {
 				res, err = distRunner.Run(q.ctx, a)
 			} else {
-				res, err = engine.NewQueryRunner(c31DBs[q.i], engine.WithMaxConcurrent(sem)).Run(q.ctx, a)
+				db := c31DBs[q.i]
+				if q.behav == c31FailList {
+					db += "/nodb"
+				}
+				res, err = engine.NewQueryRunner(db, engine.WithMaxConcurrent(sem)).Run(q.ctx, a)
 			}
 		}()
 	}
@@ -494,7 +503,7 @@ func c31Body(x *explore.Ctx, e *c31Env, dist bool, k int, behav []int) {
 			case tooMany && now.Before(deadline):
 				fail("too-many-requests-early", "%s is answered 'too many requests' after %v", desc, now.Sub(q.startedAt))
 				return
-			case q.done && !tooMany && !q.everHeld && q.behav != c31Invalid:
+			case q.done && !tooMany && !q.everHeld && q.behav != c31Invalid && (dist || q.behav != c31FailNoSeam):
 				fail("finished-without-slot", "%s returned (err %v) without ever executing and without 'too many requests'", desc, q.err)
 				return
 			case q.done && q.behav == c31Invalid && (q.err == nil || q.everHeld):
@@ -503,7 +512,7 @@ func c31Body(x *explore.Ctx, e *c31Env, dist bool, k int, behav []int) {
 			case q.done && !tooMany && (q.behav == c31OK || q.behav == c31OKLong) && q.err != nil:
 				fail("valid-query-fails", "%s executed and fails: %v", desc, q.err)
 				return
-			case q.done && !tooMany && q.behav == c31Unknown && q.err == nil:
+			case q.done && !tooMany && (q.behav == c31Unknown || q.behav == c31FailNoSeam || q.behav == c31FailList) && q.err == nil:
 				fail("failing-query-succeeds", "%s was expected to fail after acquiring its slot", desc)
 				return
 			}
@@ -558,7 +567,7 @@ func c31Body(x *explore.Ctx, e *c31Env, dist bool, k int, behav []int) {
 
 func init() {
 	rule := func(what string) string {
-		return "cases = K in {1,2} (thorough {1,2,3}) x multiset of per-query behaviours over {ok, fails after acquiring, invalid arguments (fails before acquiring), cancelled} for N=3 queries (thorough: N=4, plus ok with keepalive 2 s = 2 s acquisition timeout) of " + what + " sharing one semaphore; every order of the enabled events {start q (one representative per behaviour), let a parked q finish, cancel q's context (while waiting or executing), advance virtual time by 600 ms (while somebody waits)} until every query has returned; after every event synctest.Wait and comparison with the sequential specification: #executing <= K, len(sem) = #executing, nobody waits while a slot is free, a waiter is answered 'too many requests' exactly when its window (1 s / keepalive) has passed without a slot and never earlier, a query that executed is never answered 'too many requests', len(sem) = 0 at the end. state = (K; per query: behaviour, phase, cancelled, remaining window, arrival order among waiters), executions are cut at states already expanded; non-trivial = distinct states with all K slots taken and a waiter, and distinct 'too many requests' answers"
+		return "cases = K in {1,2} (thorough {1,2,3}) x multiset of per-query behaviours over {ok, fails after acquiring (engine: unknown interface, fails in the statement; distributed: resolver fails), invalid arguments (fails before acquiring), cancelled, fails right after acquiring before any I/O (engine: interface regexp that does not compile; distributed: as c31Unknown, the runner has no such path), fails while listing the interfaces (engine: database directory missing)} for N=3 queries (thorough: N=4, plus ok with keepalive 2 s = 2 s acquisition timeout) of " + what + " sharing one semaphore; every order of the enabled events {start q (one representative per behaviour), let a parked q finish, cancel q's context (while waiting or executing), advance virtual time by 600 ms (while somebody waits)} until every query has returned; after every event synctest.Wait and comparison with the sequential specification: #executing <= K, len(sem) = #executing, nobody waits while a slot is free, a waiter is answered 'too many requests' exactly when its window (1 s / keepalive) has passed without a slot and never earlier, a query that executed is never answered 'too many requests', len(sem) = 0 at the end. state = (K; per query: behaviour, phase, cancelled, remaining window, arrival order among waiters), executions are cut at states already expanded; non-trivial = distinct states with all K slots taken and a waiter, and distinct 'too many requests' answers"
 	}
 	assume := []string{
 		"virtual time (testing/synctest); the query holding a slot is parked at its first environment seam (engine: first file-system call below its database path through the vos shim, i.e. listing the interfaces; distributed: fake resolver / fake querier) and continues only on the 'finish' event",
